@@ -274,25 +274,148 @@ def main():
         except Exception as e:  # noqa: BLE001
             c["err"] = type(e).__name__ + ": " + str(e)[:200]
         cases.append(c)
+    # ---- persistent sampler object called with parameters of different shapes (C06) ----
+    def _echo_shape(key, x, sample_shape=()):
+        kd = jax.random.key_data(key).astype(jnp.uint32)
+        return jnp.broadcast_to(kd, tuple(sample_shape) + jnp.shape(x) + kd.shape)
+    for it in range(2):
+        pecho = pjax.sample_binder(_echo_shape, name="pecho")
+        shapes = [(), (3,), (), (2, 2), (3,)] if it == 0 else [(2,), (), (2,), (4,)]
+        c = {"kind": "seed", "block": [["sample"]], "cs": [], "runs": [], "modes": [], "shapes": [list(x) for x in shapes]}
+        try:
+            for sh in shapes:
+                o = np.asarray(seed(lambda v: pecho(v))(root, jnp.zeros(sh, dtype=jnp.float32)))
+                flat = o.reshape(-1, 2)
+                ok = o.shape == tuple(sh) + (2,) and all((r == flat[0]).all() for r in flat)
+                c["runs"].append([table.lookup(flat[0]) if ok else None])
+                c["modes"].append("shape" + str(list(sh)))
+        except Exception as e:  # noqa: BLE001
+            c["err"] = type(e).__name__ + ": " + str(e)[:200]
+        cases.append(c)
+    # ---- a sampler that closes over an array constant, under seed (eager, jit, vmap over keys) (C06) ----
+    cconst = jnp.asarray([1, 2, 3], dtype=jnp.uint32)
+
+    def _cecho(key, x, sample_shape=()):
+        kd = jax.random.key_data(key).astype(jnp.uint32)
+        return jnp.concatenate([kd, jnp.sum(cconst)[None]])
+    cecho = wrap_sampler(_cecho, name="cecho")
+    c = {"kind": "seed", "block": [["sample"], ["sample"]], "cs": [], "runs": [], "modes": [], "closure": True}
+    try:
+        cprog = lambda v: (cecho(v), cecho(v + 1.0))  # noqa: E731
+        for m in ("eager", "jit", "eager", "vmapkeys"):
+            if m == "eager":
+                o = seed(cprog)(root, jnp.float32(0.5))
+            elif m == "jit":
+                o = jax.jit(seed(cprog))(root, jnp.float32(0.5))
+            else:
+                o = jax.tree_util.tree_map(lambda a: a[1], jax.vmap(seed(cprog), in_axes=(0, None))(jnp.stack([root2, root]), jnp.float32(0.5)))
+            c["runs"].append([table.lookup(np.asarray(a)[:2]) if int(np.asarray(a)[2]) == 6 else None for a in o])
+            c["modes"].append(m)
+    except Exception as e:  # noqa: BLE001
+        c["err"] = type(e).__name__ + ": " + str(e)[:200]
+    cases.append(c)
+    # ---- vectorised calls whose site parameters are not batched, re-vectorised across staging-cache states (C06) ----
+    from genjax import modular_vmap as mv
+
+    def _echo_like(key, x, sample_shape=()):
+        # key echo with the parameter's batch shape (one row per lane when the parameter is batched)
+        kd = jax.random.key_data(key).astype(jnp.uint32)
+        return jnp.broadcast_to(kd, tuple(sample_shape) + jnp.shape(x) + kd.shape)
+    echo_like = wrap_sampler(_echo_like, name="echo_like")
+
+    # distinct function objects (the staging cache is keyed by the callee): the site's parameter passed
+    # positionally, or by keyword (the batching rule's keyword branch)
+    def vlane_pos(shift):
+        return echo(shift)
+
+    def vlane_kw(shift):
+        return echo(x=shift)
+
+    def vlane2_pos(shift, w):
+        return echo(shift), echo_like(w)
+
+    def vlane2_kw(shift, w):
+        return echo(x=shift), echo_like(x=w)
+
+    def mkprog(nl, two, kws):
+        vlane, vlane2 = (vlane_kw, vlane2_kw) if kws else (vlane_pos, vlane2_pos)
+        if two:
+            def prog(x, w):
+                a, b = mv(vlane2, in_axes=(None, 0), axis_size=nl)(x, w)
+                return a, b
+        else:
+            def prog(x):
+                return (mv(vlane, in_axes=(None,), axis_size=nl)(x),)
+        return prog
+
+    for it in range(max(4, n // 6)):
+        nl = rng.choice([2, 3, 4])
+        two = it % 2 == 1
+        kws = it % 4 >= 2
+        vlane, vlane2 = (vlane_kw, vlane2_kw) if kws else (vlane_pos, vlane2_pos)
+        xv = jnp.float32(rng.randint(1, 9) / 10.0)
+        wv = jnp.arange(nl, dtype=jnp.float32)
+        extra = (wv,) if two else ()
+        nsite = 2 if two else 1
+        c = {"kind": "seed", "block": [["sample"]] * nsite, "cs": [], "runs": [], "modes": [], "vec": nl, "kwsite": kws}
+        try:
+            prog = mkprog(nl, two, kws)
+
+            def census(o):
+                # every lane of a site vectorised by axis_size reports the site key: shape (lanes, 2), rows equal
+                terms = []
+                for a in o:
+                    a = np.asarray(a)
+                    ok = a.shape == (nl, 2) and all((a[i] == a[0]).all() for i in range(nl))
+                    terms.append(table.lookup(a[0]) if ok else None)
+                return terms
+            order = ["eager", "noise", "eager", "kw", "redef", "jit", "noise", "vmapkeys", "eager"]
+            for m in order:
+                if m == "noise":
+                    # unseeded and seeded vectorisations of the same lane function in between
+                    mv(vlane, in_axes=(None,), axis_size=nl)(jnp.float32(1.25))
+                    mv(vlane2, in_axes=(None, 0), axis_size=nl)(jnp.float32(1.25), wv)
+                    seed(lambda a: mv(vlane, in_axes=(None,), axis_size=nl)(a) + echo(a))(root2, jnp.float32(2.0))
+                    continue
+                if m == "eager":
+                    o = seed(prog)(root, xv, *extra)
+                elif m == "kw":
+                    o = seed(prog)(root, x=xv, **({"w": wv} if two else {}))
+                elif m == "redef":
+                    o = seed(mkprog(nl, two, kws))(root, xv, *extra)
+                elif m == "jit":
+                    o = jax.jit(seed(mkprog(nl, two, kws)))(root, xv, *extra)
+                else:
+                    ks = jnp.stack([root2, root])
+                    ob = jax.vmap(seed(prog), in_axes=(0,) + (None,) * (1 + len(extra)))(ks, xv, *extra)
+                    o = jax.tree_util.tree_map(lambda a: a[1], ob)
+                c["runs"].append(census(o))
+                c["modes"].append(m)
+        except Exception as e:  # noqa: BLE001
+            c["err"] = type(e).__name__ + ": " + str(e)[:200]
+        cases.append(c)
     # ---- lowering cases (C14) ----
     kinds = ["jit", "scan", "while", "fori", "cond", "nested_jit", "grad", "value_and_grad", "vmap",
              "seed_while", "seed_jit", "seed_fori", "seed_ok", "seed_scan_while", "jit_det",
-             "jit_adev", "seed_ok_adev", "seed_scan_adev"]
+             "jit_adev", "seed_ok_adev", "seed_scan_adev", "seed_remat", "seed_custom_jvp", "seed_custom_vjp", "seed_remat_jit"]
     from genjax import modular_vmap
-    for it in range(4 * len(kinds)):
+    for it in range(5 * len(kinds)):
         k = kinds[it % len(kinds)]
         rnd = it // len(kinds)
         depth = 1 + rnd % 2
         # site variants: a plain site, a site with its own sample_shape, a site vectorised by axis_size
         # (which the batching rule re-creates with a sample_shape); rounds 0/1 plain, 2 shaped, 3 vectorised
-        variant = "plain" if rnd < 2 or k.endswith("adev") else ("shaped" if rnd == 2 else "vectorised")
+        variant = "plain" if rnd < 2 or k.endswith("adev") else ("shaped" if rnd == 2 else "vectorised" if rnd == 3 else "vectorised-kw")
         ech = aecho if k.endswith("adev") else echo
         if variant == "plain":
             site = lambda v: ech(v)[0].astype(jnp.float32) * 0.0 + v + 1.0  # noqa: E731
         elif variant == "shaped":
             site = lambda v: echo(v, sample_shape=(2,))[0][0].astype(jnp.float32) * 0.0 + v + 1.0  # noqa: E731
-        else:
+        elif variant == "vectorised":
             site = lambda v: modular_vmap(lambda: echo(v), axis_size=2)()[0][0].astype(jnp.float32) * 0.0 + v + 1.0  # noqa: E731
+        else:
+            # the site's parameter passed by keyword: the batching rule's keyword branch re-creates the site
+            site = lambda v: modular_vmap(lambda: echo(x=v), axis_size=2)()[0][0].astype(jnp.float32) * 0.0 + v + 1.0  # noqa: E731
         c = {"kind": "lower", "ctx": k, "depth": depth, "variant": variant}
 
         def wrap(fn, d):
@@ -330,6 +453,18 @@ def main():
                 seed(lambda v: jax.lax.fori_loop(0, 2, lambda i, cc: body(cc), v))(root, 0.5)
             elif k == "seed_scan_while":
                 seed(lambda v: jax.lax.scan(lambda cc, _: (jax.lax.while_loop(lambda q: q < 1.0, body, cc), None), v, jnp.arange(2))[0])(root, 0.5)
+            elif k == "seed_remat":
+                seed(lambda v: jax.checkpoint(body)(v))(root, 0.5)
+            elif k == "seed_remat_jit":
+                jax.jit(seed(lambda v: jax.checkpoint(body)(v)))(root, 0.5)
+            elif k == "seed_custom_jvp":
+                cj = jax.custom_jvp(lambda v: body(v))      # (custom_* resolve default arguments: wrap)
+                cj.defjvp(lambda p, t: (cj(p[0]), t[0]))
+                seed(lambda v: cj(v))(root, 0.5)
+            elif k == "seed_custom_vjp":
+                cv = jax.custom_vjp(lambda v: body(v))
+                cv.defvjp(lambda v: (cv(v), None), lambda r, g: (g,))
+                seed(lambda v: cv(v))(root, 0.5)
             elif k == "seed_ok" or k == "seed_ok_adev":
                 jax.jit(seed(body))(root, 0.5)
             elif k == "jit_adev":
